@@ -48,7 +48,7 @@ def build(cfg, like=None):
     kw = dict(prior_transform=pt, log_likelihood=like, n_dim=t.n_dim, n_particles=c["N"],
               ess_ratio=c["ess_ratio"], volume_variation=c["volume_variation"],
               vectorize=(c["mode"] == "vec"),
-              blobs_dtype=("float64" if c["mode"] in ("blobs", "blobs3") else [("id", "f8"), ("half", "f8")] if c["mode"] == "blobs2" else None),
+              blobs_dtype=("float64" if c["mode"] in ("blobs", "blobs3", "blobview") else [("id", "f8"), ("half", "f8")] if c["mode"] == "blobs2" else None),
               periodic=periodic, reflective=reflective, pool=c["pool"], clustering=c["clustering"],
               normalize=c["normalize"], cluster_every=c["cluster_every"],
               split_threshold=c["split_threshold"], n_max_clusters=c["n_max_clusters"],
@@ -87,7 +87,7 @@ def execute(c, **runkw):
     of different sizes."""
     if not c.get("continue_with"):
         s, t, like, pt = build(c)
-        s.run(n_total=c["n_total"], progress=False, **runkw)
+        s.run(n_total=c["n_total"], progress=bool(c.get("progress")), **runkw)
         return s, t, like, pt
     import os, shutil, tempfile
     from tvf.env import OUT
@@ -97,11 +97,11 @@ def execute(c, **runkw):
     try:
         c1 = dict(c, output_dir=tmp, output_label="cw")
         s1, t, like, pt = build(c1)
-        s1.run(n_total=c["n_total"], progress=False, save_every=1)
+        s1.run(n_total=c["n_total"], progress=bool(c.get("progress")), save_every=1)
         files = sorted((f for f in os.listdir(tmp) if f.startswith("cw_") and "final" not in f), key=lambda f: int(f.split("_")[1].split(".")[0]))
         pick = os.path.join(tmp, files[len(files) // 2])
         s2, _, _, _ = build(dict(c1, N=int(c["continue_with"])), like=like)
-        s2.run(n_total=c["n_total"], progress=False, resume_state_path=pick, **runkw)
+        s2.run(n_total=c["n_total"], progress=bool(c.get("progress")), resume_state_path=pick, **runkw)
         return s2, t, like, pt
     finally:
         shutil.rmtree(tmp, ignore_errors=True)
